@@ -403,7 +403,9 @@ namespace ST
                             int_T value) \
     { \
         if (format.digit_class == ST::digit_char) \
-            _ST_PRIVATE::format_char(format, output, static_cast<int>(value)); \
+            _ST_PRIVATE::format_char(format, output, \
+                    (static_cast<long long>(value) < 0 || static_cast<long long>(value) > 0x10FFFF) \
+                    ? -1 : static_cast<int>(value)); \
         else \
             _ST_PRIVATE::format_numeric_s<int_T>(format, output, value); \
     } \
@@ -412,7 +414,9 @@ namespace ST
                             uint_T value) \
     { \
         if (format.digit_class == ST::digit_char) \
-            _ST_PRIVATE::format_char(format, output, static_cast<int>(value)); \
+            _ST_PRIVATE::format_char(format, output, \
+                    (static_cast<unsigned long long>(value) > 0x10FFFF) \
+                    ? -1 : static_cast<int>(value)); \
         else \
             _ST_PRIVATE::format_numeric_u<uint_T>(format, output, value); \
     }
